@@ -768,6 +768,48 @@ Proof.
   intro H; vm_compute in H; discriminate H.
 Qed.
 
+(** the same with the uniform humidity given as a MODAL array (tracer 0 = q0 times the (0,0)-only spectrum v00 on the coefficient
+    range): H_q_uniform and H_gradq_zero are DERIVED from H_one (the (0,0)-only spectrum v00 synthesises to the constant one - the
+    table hypothesis of C04_whole_state_split_invariance); remaining table hypotheses: H_one, H_lap_one, H_lapn. *)
+Theorem C05_whole_state_rest_isothermal_steady_moist_modal {F : Type} {o : Ops F} {Fc : FieldC o}
+        (g : @HGrid F) (c : @PEcfg F) (m : @Moist F) (grav T0 cst v00 q0 : F) (orog : nat -> nat -> F) (s : @State F) :
+  cR c * T0 <> 0 -> cR c <> 0 -> 1 + (mRv m / cR c - 1) * q0 <> 0 ->
+  (forall k, (k < cK c)%nat -> cTref c k = T0) ->
+  (forall k a l, (k < cK c)%nat -> (a < hR g)%nat -> (l < hL g)%nat -> s_vort s k a l = 0) ->
+  (forall k a l, (k < cK c)%nat -> (a < hR g)%nat -> (l < hL g)%nat -> s_div s k a l = 0) ->
+  (forall k a l, (k < cK c)%nat -> (a < hR g)%nat -> (l < hL g)%nat -> s_temp s k a l = 0) ->
+  (forall a l, (a < hR g)%nat -> (l < hL g)%nat ->
+               s_lnps s a l = cst * onem00 v00 (a, l) - grav / (cR c * T0 * (1 + (mRv m / cR c - 1) * q0)) * orog a l) ->
+  s_tr s <> [] ->
+  (forall k a l, (k < cK c)%nat -> (a < hR g)%nat -> (l < hL g)%nat -> q_modal s k a l = q0 * onem00 v00 (a, l)) ->
+  (forall i j, (i < hI g)%nat -> (j < hJ g)%nat -> to_nodal g (cur (onem00 v00)) i j = 1) ->
+  (forall a l, (a < hR g)%nat -> (l < hL g)%nat -> lap_c g (toM_c g (fun _ => 1)) (a, l) = 0) ->
+  (forall a l, (a < hR g)%nat -> (l < hL g)%nat ->
+               clip_c g (toM_c g (lapn0 g s)) (a, l) = clip_c g (lap_c g (unc (s_lnps s))) (a, l)) ->
+  forall k a l, (k < cK c)%nat -> (a < hR g)%nat -> (l < hL g)%nat ->
+    let E := explicit_terms_full_moist g false c m grav orog s in
+    let I := implicit_terms_full g c s in
+    s_vort E k a l + s_vort I k a l = 0 /\
+    s_temp E k a l + s_temp I k a l = 0 /\
+    s_lnps E a l + s_lnps I a l = 0 /\
+    s_div E k a l + s_div I k a l = grav / (1 + (mRv m / cR c - 1) * q0) * (lapm g orog a l - clipm g (lapm g orog) a l) /\
+    ((l < hL g - 1)%nat -> s_div E k a l + s_div I k a l = 0).
+Proof.
+  intros H1 H2 H3 H4 H5 H6 H7 H8 H9 H10 H11 H12 H13 k a l Hk Ha Hl.
+  exact (whole_state_rest_isothermal_steady_moist_modal g c m grav T0 cst v00 q0 orog s H1 H2 H3 H4 H5 H6 H7 H8 H9 H10 H11 H12 H13 k a l Hk Ha Hl).
+Qed.
+
+(** its two new hypotheses on the instance of [C05_whole_state_rest_moist_hyps_satisfiable] (the others are shown there) *)
+Example C05_whole_state_rest_moist_modal_hyps_satisfiable :
+  (forall k a l, (k < cK ex_cfg)%nat -> (a < hR rest_grid)%nat -> (l < hL rest_grid)%nat ->
+                 q_modal restm_state k a l = Q2Qc (1#100) * onem00 (Q2Qc 1) (a, l)) /\
+  (forall i j, (i < hI rest_grid)%nat -> (j < hJ rest_grid)%nat -> to_nodal rest_grid (cur (onem00 (Q2Qc 1))) i j = 1).
+Proof.
+  split; [intros; reflexivity|].
+  intros i j Hi Hj. change (hI rest_grid) with 1%nat in Hi. change (hJ rest_grid) with 2%nat in Hj.
+  destruct i as [|i]; [|lia]. destruct j as [|[|j]]; [| |lia]; apply Qc_is_canon; vm_compute; reflexivity.
+Qed.
+
 (** * (B'') the EXECUTED dry whole-state model refines the specification at the modal layer: [C05_primeq_refines_spec] for
     explicit_terms_full + implicit_terms_full of the state (s0 with temperature variation temp1) under the reference profile T1,
     every in-range coefficient.  X = the ideal nodal columns of the state, T / Tm = absolute temperature (nodal / modal).
@@ -1009,3 +1051,5 @@ Print Assumptions C05_whole_state_rest_isothermal_steady_moist.
 Print Assumptions C05_whole_state_rest_moist_hyps_satisfiable.
 Print Assumptions C05_whole_state_refines_spec.
 Print Assumptions C05_whole_state_solid_body_steady_partial.
+Print Assumptions C05_whole_state_rest_isothermal_steady_moist_modal.
+Print Assumptions C05_whole_state_rest_moist_modal_hyps_satisfiable.
